@@ -41,6 +41,10 @@ def cut_scripts(thorough):
         scripts.append({"ops": base + [["R", 1], ["Y", 0], ["F", "stall"]], "keepalive": [300, 2000]})
         # silent peer while callers keep submitting (and abandoning) requests on the connection
         scripts.append({"ops": base + [["F", "stall", 1]], "keepalive": [900, 600]})
+        # ... and a peer that has stopped READING too, behind a pipe that holds only 64 bytes: the writer is stuck in the middle
+        # of a request when the keep-alive gives up
+        scripts.append({"ops": [["CAP", 64]] + base + [["F", "stall", 2]], "keepalive": [900, 600]})
+        scripts.append({"ops": [["CAP", 48]] + base + [["R", 1], ["Y", 0], ["F", "stall", 2]], "keepalive": [400, 900]})
     return scripts
 
 
